@@ -176,7 +176,7 @@ TkInit == [
     lastreq |-> NoT,                                    \* the most recent request (re-synchronised from every view)
     msucc |-> {}, mfail |-> {},                         \* upper bounds of the outstanding reports (see FlagsAfterM)
     planx |-> <<>>,                                     \* tasks appended and neither removed, fired nor wiped (from actions only)
-    inround |-> FALSE, rpend |-> NoT, rcancel |-> FALSE, rfirst |-> FALSE,
+    inround |-> FALSE, rpend |-> NoT, rcancel |-> FALSE, rfirst |-> FALSE, rentry |-> FALSE,
     surv |-> NoT, passed |-> {}, rounds |-> 0,
     planv |-> <<>>, succ |-> {}, fail |-> {}, planExists |-> FALSE,
     sawF |-> {},                                        \* failure reports made during this call (targets)
@@ -192,8 +192,10 @@ Cont(tk, e) == /\ tk.dpos > 0 /\ tk.dm = e.m /\ tk.ds = e.s /\ tk.dpos < Len(Ord
 EndRound(tk) ==
     IF ~tk.inround THEN tk
     ELSE [tk EXCEPT !.inround = FALSE,
-                    !.surv = IF tk.rcancel THEN @ ELSE tk.rpend,
-                    !.passed = IF tk.rcancel THEN @ ELSE @ \cup {tk.rpend}]
+                    \* the pending transition passed its guards: nobody cancelled it AND the destination's entry guard was consulted
+                    \* (only judged when every class defines every callback - otherwise a guard may exist without being observable)
+                    !.surv = IF tk.rcancel \/ (FullObs /\ ~tk.rentry) THEN @ ELSE tk.rpend,
+                    !.passed = IF tk.rcancel \/ (FullObs /\ ~tk.rentry) THEN @ ELSE @ \cup {tk.rpend}]
 
 \* does guard callback e (a delivery start) open a new round of guards?
 RoundStart(tk, e) ==
@@ -211,7 +213,7 @@ PlanShown(tk, e) == IF e.e = "cb" /\ CtrlKind(e.m) = 0 THEN tk.planv ELSE e.plan
 TkCall(tk, e) ==
     LET base == [tk EXCEPT !.incall = TRUE, !.op = e.op, !.oa = e.a, !.ob = e.b, !.opp = e.p,
                            !.act0 = tk.obs.act, !.stage = "pre", !.dseq = <<>>, !.life = <<>>, !.dpos = 0, !.lastacts = <<>>,
-                           !.inround = FALSE, !.rpend = NoT, !.rcancel = FALSE, !.rfirst = FALSE,
+                           !.inround = FALSE, !.rpend = NoT, !.rcancel = FALSE, !.rfirst = FALSE, !.rentry = FALSE,
                            !.surv = NoT, !.passed = {}, !.rounds = 0,
                            !.sawF = {}, !.sawS = {}, !.stepDone = FALSE, !.fired = <<>>, !.outcome = 0, !.phases = 0,
                            !.planBefore = <<>>, !.desync = 0]
@@ -247,10 +249,10 @@ TkCb(tk, e) ==
                 ELSE IF IsPlanCb(e.m) /\ ~cont THEN [t2 EXCEPT !.outcome = IF e.m = M_PLAN_SUCCEEDED THEN 1 ELSE 2]
                 ELSE t2
         t5   == IF RoundStart(tk, e)
-                THEN [EndRound(t3) EXCEPT !.inround = TRUE, !.rpend = e.pend, !.rcancel = FALSE, !.rfirst = FALSE, !.rounds = @ + 1]
+                THEN [EndRound(t3) EXCEPT !.inround = TRUE, !.rpend = e.pend, !.rcancel = FALSE, !.rfirst = FALSE, !.rentry = FALSE, !.rounds = @ + 1]
                 ELSE t3
         t6   == IF IsGuard(e.m)
-                THEN [t5 EXCEPT !.rcancel = @ \/ HasAct(e.acts, "X"), !.rfirst = TRUE]
+                THEN [t5 EXCEPT !.rcancel = @ \/ HasAct(e.acts, "X"), !.rfirst = TRUE, !.rentry = @ \/ (e.m = M_ENTRY_GUARD /\ e.s # NONE)]
                 ELSE t5
         cleared == IsPlanCb(e.m) /\ DEnd(e)                                  \* plan().clear() follows the callback
         exitClears == IF e.m = M_EXIT /\ e.s # NONE /\ DEnd(e) THEN {e.s} ELSE {}
@@ -354,6 +356,8 @@ CheckCb(tk, e, tk2) ==
     \cup V0(e.ctx = 1, "C06", "control.context() is not the machine's context object")
     \cup V(IsPhase(tk.dm) /\ IsPhase(e.m) /\ tk.dpos > 0 => e.req[1] = tk.lastreq[1] /\ e.req[2] = tk.lastreq[2],
            "C06", "control.request() does not show the request made in the preceding callback")
+    \cup V(IsPhase(tk.dm) /\ IsPhase(e.m) /\ tk.dpos > 0 => e.req[1] = tk.lastreq[1] /\ e.req[2] = tk.lastreq[2],
+           "C02", "the request made in the preceding callback is not waiting: the most recent request was lost (or never recorded)")
     \cup V(IsPhase(tk.dm) /\ IsPhase(e.m) /\ tk.dpos > 0 /\ e.req[1] = tk.lastreq[1] /\ e.req[2] = tk.lastreq[2] => e.req[3] = tk.lastreq[3],
            "C07", "the outstanding request does not carry the payload it was made with")
     \cup V(IsGuard(e.m) /\ (proc \/ actv) /\ FullObs => e.cur = survNow,
@@ -440,6 +444,7 @@ CheckCb(tk, e, tk2) ==
     \cup V((IsPhase(e.m) \/ e.m = M_QUERY) /\ e.s # NONE => tk.ent = e.s, "C01", "phase callback of a state that is not the entered one")
     \cup V((IsPhase(e.m) \/ e.m = M_QUERY \/ IsPlanCb(e.m)) /\ e.s = NONE => tk.ent # NONE, "C01", "root phase callback while no state is entered")
     \cup V(tk.ent # NONE /\ e.m # M_ENTER => e.mact = tk.ent /\ e.mia = <<tk.ent>>, "C01", "activeStateId()/isActive() do not name the state whose enter() ran last without exit()")
+    \cup V(tk.ent # NONE /\ e.m # M_ENTER => e.cact = <<tk.ent>>, "C01", "through the control a callback does not see exactly one active state - the one whose enter() ran last without exit()")
     \* ---- C02 / C03 / C04: guard rounds
     \cup V(rstart /\ proc => \/ (e.pend[1] = ExpectedPend(tk, tk2)[1] /\ e.pend[2] = ExpectedPend(tk, tk2)[2])
                               \/ (step /\ \E q \in 1 .. Len(pb) : pb[q] = e.pend /\ pb[q][1] = a0)      \* issued by a task (C08 decides whether rightly)
